@@ -53,9 +53,16 @@ MUTANTS = [
     # round 4: ill-formed input on ports
     ("undo-fix-peek-pushes-exception", "vm.c", "      if (!sexp_exceptionp(tmp1))\n        sexp_push_utf8_char(ctx, sexp_unbox_character(tmp1), _ARG1);", "      sexp_push_utf8_char(ctx, sexp_unbox_character(tmp1), _ARG1);"),
     ("undo-fix-truncated-decoded-from-eof", "eval.c", "      if (c == EOF)\n        return sexp_user_exception(ctx, NULL, \"read-char: truncated utf8 sequence\", sexp_make_fixnum(lead));\n", ""),
-    ("truncated-only-checked-on-last-byte", "eval.c", "      if (c == EOF)\n        return sexp_user_exception(ctx, NULL, \"read-char: truncated utf8 sequence\"", "      if (c == EOF && n == 1)\n        return sexp_user_exception(ctx, NULL, \"read-char: truncated utf8 sequence\""),
+    # ("truncated-only-checked-on-last-byte": `c == EOF && n == 1` turned out to be EQUIVALENT — end of input is sticky, the last read sees it too — exit 0, correctly)
+    ("truncated-unchecked-for-4-byte-lead", "eval.c", "      if (c == EOF)\n        return sexp_user_exception(ctx, NULL, \"read-char: truncated utf8 sequence\"", "      if (c == EOF && lead < 0xF0)\n        return sexp_user_exception(ctx, NULL, \"read-char: truncated utf8 sequence\""),
     ("invalid-lead-f8-accepted", "eval.c", "    if ((i < 0xC0) || (i > 0xF7)) {", "    if ((i < 0xC0) || (i > 0xFB)) {"),
     ("peek-error-unreads-lead-byte", "vm.c", "      if (!sexp_exceptionp(tmp1))\n        sexp_push_utf8_char(ctx, sexp_unbox_character(tmp1), _ARG1);", "      if (!sexp_exceptionp(tmp1))\n        sexp_push_utf8_char(ctx, sexp_unbox_character(tmp1), _ARG1);\n      else if (i < 0xC0)\n        sexp_push_char(ctx, i, _ARG1);"),
+    # round 4: the newly modelled operations
+    ("foldcase-table-wrong-entry", "lib/scheme/char/case-offsets.scm", " #x3a3 #x3c3 ", " #x3a3 #x3c2 "),
+    ("bsearch-kv-skips-an-entry", "lib/scheme/char/full.scm", "           (bsearch-kv vec n lo (- mid 2)))", "           (bsearch-kv vec n lo (- mid 4)))"),
+    ("string-map-nary-one-past-shortest", "lib/chibi/string.sld", "                         (string-cursor>=? i (string-cursor-end str)))", "                         (string-cursor>? i (string-cursor-end str)))"),
+    ("string-copy!-backward-off-by-one", "lib/scheme/extras.scm", "            ((< j start))\n          (string-set! to i (string-ref from j))))))", "            ((<= j start))\n          (string-set! to i (string-ref from j))))))"),
+    ("string-ci-core-folds-bytes-above-7f", "eval.c", "      diff = tolower((unsigned char)sexp_string_data(str1)[i])\n        - tolower((unsigned char)sexp_string_data(str2)[i]);", "      diff = (((unsigned char)sexp_string_data(str1)[i]) | 0x20)\n        - (((unsigned char)sexp_string_data(str2)[i]) | 0x20);"),
     ("concat-length", "sexp.c", "    len = sexp_string_size(sexp_car(ls));\n    memcpy(p, sexp_string_data(sexp_car(ls)), len);", "    len = sexp_string_length(sexp_car(ls));\n    memcpy(p, sexp_string_data(sexp_car(ls)), len);"),
 ]
 
